@@ -13,12 +13,16 @@
 // documented panic, never a successful open. Anchors: the sealed bytes equal an independent construction
 // (x/crypto chacha20poly1305.NewX for XChaCha; salsa20+poly1305 composed by hand for the secretbox layout) and the
 // draft-irtf-cfrg-xchacha / HChaCha20 published vectors.
+//
+// Schedule phase (sched.go): one AEAD value shared by 2-3 threads under the controlled scheduler + a free-running -race pass.
 package main
 
 import (
 	"bytes"
 	crand "crypto/rand"
 	"encoding/hex"
+	"encoding/json"
+	"flag"
 	"fmt"
 	"sync/atomic"
 	"time"
@@ -424,9 +428,28 @@ func xsalsaCase(c *scase) {
 }
 
 func main() {
+	worker := flag.String("worker", "", "internal: scenario:bound:budgetSeconds:maxExecs (schedule phase)")
+	free := flag.Int("freerun", 0, "internal: free-running iterations per scenario (race binary)")
+	raceBin := flag.String("racebin", "", "path of the -race build of this harness")
 	r = vk.New("exploration")
-	r.SetBudget(150*time.Second, 15*time.Minute)
 	crand.Reader = rdr
+	if *free > 0 {
+		freeRun(*free)
+		return
+	}
+	if *worker != "" {
+		var si, bound, bs, maxExecs int
+		fmt.Sscanf(*worker, "%d:%d:%d:%d", &si, &bound, &bs, &maxExecs)
+		b, _ := json.Marshal(runSchedJob(si, bound, time.Duration(bs)*time.Second, maxExecs))
+		fmt.Println("RESULT " + string(b))
+		return
+	}
+	if r.ReplayIn != "" {
+		schedReplay(r)
+		return
+	}
+	r.SetBudget(150*time.Second, 15*time.Minute)
+	sp := startSchedPhase(r, *raceBin) // worker subprocesses + -race pass run while the enumeration below proceeds
 
 	xchachaAnchors()
 
@@ -469,6 +492,7 @@ func main() {
 	r.ParFor(len(ss), func(i int) { xsalsaCase(ss[i]) })
 
 	flushReports()
+	schedCov := sp.collect(r)
 	r.OutcomeN("tampered_open_rejected", tamperOK.Load())
 	r.OutcomeN("roundtrip_ok", roundtripOK.Load())
 	r.OutcomeN("sealed_bytes_equal_reference", refMatch.Load())
@@ -482,7 +506,8 @@ func main() {
 		"crypto/rand.Reader is replaced by a deterministic pattern reader so that EncryptSymmetric's nonce is owned by the harness",
 		"golang.org/x/crypto primitives (chacha20poly1305, salsa20, poly1305) are trusted as the reference",
 		"multi-bit forgeries are out of scope (cryptographic claim); every single-bit flip, every truncation and one-byte extensions are enumerated",
+		"schedule phase: scheduling points are the sync / sync/atomic operations of xchachapoly.go and symmetric.go (import-rewritten shims); code between them is atomic, which is sound for data-race-free code - races are looked for by the separate free-running -race pass of the same bodies; small scope: one shared AEAD, 2-3 threads, 2-3 operations each, <=2 preemptions (all interleavings for the 2-thread scenarios)",
 	}
-	r.Finish("every (plaintext length, AD length, key pattern, nonce pattern) x every single-bit flip of ct+tag/nonce/key/AD, every truncation, one-byte extensions, wrong sizes; distinct = distinct sealed messages (cipher,key,nonce,ptlen,adlen)",
-		true, map[string]any{"sealed_messages": len(xs) + len(ss), "plaintext_lengths": len(lens), "ad_lengths": len(adl)})
+	r.Finish("every (plaintext length, AD length, key pattern, nonce pattern) x every single-bit flip of ct+tag/nonce/key/AD, every truncation, one-byte extensions, wrong sizes; distinct = distinct sealed messages (cipher,key,nonce,ptlen,adlen); plus: one AEAD value shared by 2-3 threads (nonces one bit apart), every schedule with <=2 preemptions over the sync operations inside the cipher files",
+		true, map[string]any{"sealed_messages": len(xs) + len(ss), "plaintext_lengths": len(lens), "ad_lengths": len(adl), "schedule_phase": schedCov})
 }
